@@ -302,7 +302,7 @@ def gated_inputs(rng: random.Random, spec: dict) -> dict:
     return d
 
 
-def with_explicit_edges(spec: dict) -> dict:
+def with_explicit_edges(spec: dict, self_edges: bool = False) -> dict:
     """Same wiring declared through Graph(edges=...): one edge per (producer, consumer)
     pair, plus a value-less edge from every gate to each of its targets (which then are
     ordering edges and take the place of the control edges)."""
@@ -316,7 +316,7 @@ def with_explicit_edges(spec: dict) -> dict:
         for _, e in ref.node_inputs(ns):
             for p in prod.get(e, []):
                 pair = [ref.node_name(p), me]
-                if pair not in edges and pair[0] != pair[1]:
+                if pair not in edges and (self_edges or pair[0] != pair[1]):
                     edges.append(pair)
         for w in ns.get("wait", []) if ns["k"] != "sub" else []:
             for p in prod.get(w, []):
